@@ -73,7 +73,31 @@ static bool contents_eq(cont_t *c, const struct mp *m) {
 }
 static cont_t *g_c; static struct res g_r2; static int g_t2_done; static unsigned g_points;
 static void run_t2(void) { g_t2_done = 1; real(g_c, VF_OP2, vfin.k2 & 1, vfin.v2, &g_r2); }
-static void hook(int what) { (void)what; g_points++; if (!g_t2_done && g_points == vfin.sched) run_t2(); }
+/* ---- lock-discipline monitor ("no data race on container state"): while T1 is OUTSIDE its critical sections the
+ * structural pointers of the container are hidden (the container looks empty); they are restored at every outermost lock
+ * acquisition and hidden again after every outermost release.  Code that touches the structure only under the lock never
+ * notices; an access outside the lock (a read that another thread's restructuring could race with) sees an empty
+ * container and shows up as a result no sequential order explains.  Counters (num) are not hidden: size() may read them. */
+#if VF_CONT == 3
+static qlisttbl_obj_t *sv_first, *sv_last;
+static void hide(cont_t *c) { sv_first = c->first; sv_last = c->last; c->first = NULL; c->last = NULL; }
+static void show(cont_t *c) { c->first = sv_first; c->last = sv_last; }
+#elif VF_CONT == 4
+static qhashtbl_obj_t **sv_slots;
+static qhashtbl_obj_t *vf_no_slots[2];
+static void hide(cont_t *c) { sv_slots = c->slots; c->slots = vf_no_slots; }
+static void show(cont_t *c) { c->slots = sv_slots; }
+#else
+static qtreetbl_obj_t *sv_root;
+static void hide(cont_t *c) { sv_root = c->root; c->root = NULL; }
+static void show(cont_t *c) { c->root = sv_root; }
+#endif
+static void hook(int what) {
+    g_points++;
+    if (what == VF_SCHED_ACQUIRE) show(g_c);
+    if (!g_t2_done && g_points == vfin.sched) run_t2();
+    if (what == VF_SCHED_RELEASE) hide(g_c);
+}
 
 void vf_harness(void) {
 #if VF_CONT == 3
@@ -96,7 +120,9 @@ void vf_harness(void) {
 #endif
     if (vfin.sched == 0) run_t2();
     vf_sched_hook = hook;
+    hide(c);
     real(c, VF_OP1, vfin.k1 & 1, vfin.v1, &r1);
+    show(c);
     vf_sched_hook = NULL;
     if (!g_t2_done) run_t2(); else if (vfin.sched != 0) VF_COVER("t2-inside");
     VF_ASSERT(vf_lock_depth == 0, "C14.sched.lock: both calls return with the lock released");
@@ -105,7 +131,7 @@ void vf_harness(void) {
     ideal(&b, VF_OP2, vfin.k2 & 1, vfin.v2, &b2); ideal(&b, VF_OP1, vfin.k1 & 1, vfin.v1, &b1);
     bool lin_a = res_eq(&r1, &a1) && res_eq(&g_r2, &a2) && contents_eq(c, &a);
     bool lin_b = res_eq(&r1, &b1) && res_eq(&g_r2, &b2) && contents_eq(c, &b);
-    VF_ASSERT(lin_a || lin_b, "C13.linearizable: results and final contents equal those of one of the two sequential orders (no update lost, duplicated or half-applied)");
+    VF_ASSERT(lin_a || lin_b, "C13.linearizable: results and final contents equal those of one of the two sequential orders (no update lost, duplicated or half-applied; no access to the container structure outside its lock)");
     c->free(c);
     VF_REACH("end");
 }
